@@ -89,6 +89,11 @@ def gen(rng, tier, index):
             rel += [rng.choice("ab") + s, s + rng.choice("ab"), s[1:] if len(s) > 1 else s + "z"]
         rel = [r for r in dict.fromkeys(rel) if r and r not in stems][: rng.randint(1, 3)]
         plan["preexisting"] = [{"stem": r, "kind": rng.choice(["completed", "completed", "nc"])} for r in rel]
+        # ... and sometimes records of the inputs themselves, as a resumed run finds them:
+        # a completed one must be skipped and kept, a failed one (directory store) is tried again
+        for s in stems:
+            if rng.random() < 0.25:
+                plan["preexisting"].append({"stem": s, "kind": rng.choice(["completed", "nc"])})
         if plan["preexisting"]:
             plan["out_mode"] = "a"
     if plan["input_form"] == "objects":
@@ -430,6 +435,21 @@ def run(plan, tier="quick", real_pool=False) -> RunResult:
                             res.add(f"C14.duplicate/{wr}{idc}", f"[{who}] identifiers stored twice: {d}", replay)
                         for stem in stems:
                             value, ref_view, pred = expected[stem]
+                            if stem in pre:
+                                pkind, ppayload = pre[stem]
+                                got = v.get(stem)
+                                if pkind == "completed":
+                                    res.probe("input-already-completed")
+                                    # resumed run: kept as it was
+                                    continue  # checked by the pre-existing loop below
+                                res.probe("input-previously-failed")
+                                if wr == "db":
+                                    # SQLite: a stored failure counts as present and is not retried
+                                    if got is None:
+                                        res.add(f"C14.missing/{wr}{idc}:previously-failed",
+                                                f"[{who}] {stem!r} had a failure record before the run and has no record now", replay)
+                                    continue
+                                # directory store: a failed input is processed again (see _apply_to's comment)
                             if "<raised>" in ref_view:
                                 # a wrong-typed value reached the writer: it must be
                                 # recorded as a failure of the writer step
@@ -472,6 +492,8 @@ def run(plan, tier="quick", real_pool=False) -> RunResult:
                                     res.add(f"C14.passthrough/{pred[1]}:stored",
                                             f"[{who}] failure record {stem!r} is {a[:2]}, plan predicts {pred[1:]}", replay)
                         for pstem, (pkind, ppayload) in pre.items():
+                            if pstem in stems and not (pkind == "completed"):
+                                continue  # retried (directory) or kept (SQLite): handled above
                             got = v.get(pstem)
                             same = got is not None and got[0] == pkind and (
                                 got[1] == ppayload or (isinstance(got[1], str) and isinstance(ppayload, bytes)
@@ -485,7 +507,8 @@ def run(plan, tier="quick", real_pool=False) -> RunResult:
                             res.add(f"C14.wrong-identifier/{wr}{idc}",
                                     f"[{who}] records under identifiers that are no input: {extra}; inputs={stems}; "
                                     f"delivered={pool.delivered}", replay)
-                    if plan["parallel"] and pool.submitted != len(stems):
+                    n_skip = len([s_ for s_ in stems if s_ in pre and (pre[s_][0] == "completed" or wr == "db")])
+                    if plan["parallel"] and pool.submitted != len(stems) - n_skip:
                         res.add(f"C14.submitted/{wr}", f"{pool.submitted} tasks submitted for {len(stems)} inputs", replay)
     finally:
         sql.close_all()
